@@ -278,6 +278,31 @@ def rules(rep, m):
                 r3.fail()
             else:
                 r3.ok()
+    # the clock is advanced before anything in the dispatcher can read it: wake-ups for processes waiting for this
+    # event are scheduled at cmb_time(), and the action runs at the event's time
+    clock_readers = {f_.key for f_, n_, is_w_, k_ in inv.global_refs(m, gk) if not is_w_}
+    reach_read = m.reaches(clock_readers) | clock_readers
+    cstores = [node for lhs, rhs, kind, node in inv.stores(ex)
+               if strip(lhs, casts=True).get("ref", {}).get("name") == "sim_time"]
+    if len(cstores) == 1:
+        for c_ in walk(ex.body):
+            if c_["kind"] != "CallExpr" or c_ is deq[0] if deq else False:
+                continue
+            nm_ = callee_ref(c_)
+            if nm_ in ("cmi_hashheap_dequeue", "cmi_hashheap_is_empty", "cmi_assert_failed", "cmi_slist_is_empty") or \
+                    (nm_ or "").startswith(("cmi_logger", "cmb_logger")):
+                continue
+            reads = nm_ is None or (m.resolve(ex.unit, nm_) in reach_read)
+            if not reads:
+                continue
+            r3.instance("dispatcher: %s runs after the clock is advanced: %s" % (nm_ or "the action", inv.executes_before(ex, cstores[0], c_)))
+            if inv.executes_before(ex, cstores[0], c_):
+                r3.ok()
+            else:
+                rep.finding(r3, ex.name, "clock:late", "the dispatcher calls %s before it has advanced the clock to the event's time: "
+                            "what that call schedules or reads is stamped with the previous event's time (wake-ups of processes "
+                            "waiting for this event would run in the past)" % (nm_ or "the event's action"), where=m.rel(loc(c_)))
+                r3.fail()
     # time assertions on the way into the queue
     for f in ev_funcs.values():
         cx = FuncCtx(m, f)
